@@ -772,8 +772,118 @@ EvalFixLoop(r) ==
            ELSE IF r.converged /\ ~r.lib_equal THEN BadT([note |-> "the library's fixpoint strategy returns another formula than iterating passes until nothing changes"])
            ELSE OkT, r.portfolio)>>
 
+\* ---------------------------------------------------------------- C13: proof outlines (kind "external" with a non-empty outline)
+\* acceptance conditions of verifying/outline/mod.rs on the trees of the outline entries
+RECURSIVE LeadingForall(_)
+LeadingForall(f) == IF f.k = "forall" THEN LET r == LeadingForall(f.f) IN [vars |-> Keys(f.vars) \cup r.vars, body |-> r.body, dup |-> r.dup \/ Len(f.vars) # Cardinality(Keys(f.vars))]
+                    ELSE [vars |-> {}, body |-> f, dup |-> FALSE]
+IsVarT(t) == t.k = "var"
+DefPred(f) == <<f.f.l.p, Len(f.f.l.args)>>
+DefWhy(f, taken) ==
+  IF ~(f.k = "forall" /\ f.f.k = "iff" /\ f.f.l.k = "atom") THEN "it is not a universally quantified equivalence with an atom on the left"
+  ELSE LET a == f.f.l
+           dvars == Keys(f.vars)
+       IN IF Len(f.vars) # Cardinality(dvars) THEN "a variable is quantified twice"
+          ELSE IF \E k \in DOMAIN a.args : ~IsVarT(a.args[k]) THEN "an argument of the defined atom is not a variable"
+          ELSE IF {<<a.args[k].v, a.args[k].s>> : k \in DOMAIN a.args} # dvars THEN "the quantified variables are not the arguments of the defined atom"
+          ELSE IF DefPred(f) \in taken THEN "the defined predicate is taken"
+          ELSE IF ~(FreeVarKeys(f.f.r) \subseteq dvars) THEN "the body has other free variables"
+          ELSE IF ~(FormPreds(f.f.r) \subseteq taken) THEN "the body mentions a predicate that is neither in the task nor defined earlier"
+          ELSE ""
+\* shape after universal closure and joining of the leading universal quantifiers
+IndShape(f) == LET lf == LeadingForall(f) IN [vars |-> lf.vars \cup FreeVarKeys(f), body |-> lf.body]
+IndWhy(f) ==
+  LET sh == IndShape(f)
+      b == sh.body
+  IN IF sh.vars = {} \/ b.k # "imp" THEN "it is not a universally quantified implication"
+     ELSE IF b.l.k # "cmp" THEN "the antecedent is not a comparison"
+     ELSE IF Len(b.l.g) # 1 THEN "the antecedent is a chained comparison"
+     ELSE IF sh.vars # FreeVarKeys(b.r) THEN "the quantified variables are not the free variables of the consequent"
+     ELSE IF ~(b.l.t.k = "var" /\ b.l.t.s = "i") THEN "the induction term is not an integer variable"
+     ELSE IF ~(b.l.g[1].r = "ge" /\ b.l.g[1].t.k = "num") THEN "the antecedent is not of the form N >= numeral"
+     ELSE ""
+RECURSIVE OutlineWhy(_, _)
+OutlineWhy(es, taken) ==
+  IF es = <<>> THEN ""
+  ELSE LET e == Head(es) IN
+       IF e.role \in {"spec", "assumption"} THEN e.name \o ": role " \o e.role \o " is not allowed in a proof outline"
+       ELSE IF e.role = "definition"
+            THEN LET w == DefWhy(e.f, taken) IN IF w # "" THEN e.name \o ": " \o w ELSE OutlineWhy(Tail(es), taken \cup {DefPred(e.f)})
+       ELSE IF e.role = "inductive-lemma"
+            THEN LET w == IndWhy(e.f) IN IF w # "" THEN e.name \o ": " \o w ELSE OutlineWhy(Tail(es), taken)
+       ELSE OutlineWhy(Tail(es), taken)
+
+\* r.obs[i]: for family i the observed problems as [name, fwd, axioms |-> names, conj |-> name] (names with the numbering prefix
+\* removed); sequencing condition of Outline.tla evaluated on the observed list
+ConjNames(e) == IF e.role = "inductive-lemma" THEN {e.name \o "base_case", e.name \o "inductive_step"} ELSE {e.name}
+AppliesTo(e, fwd) == e.dir = "universal" \/ (e.dir = "forward") = fwd
+SequencingWhy(po, probs) ==
+  LET entry(nm) == {k \in DOMAIN po : nm = po[k].name \/ nm \in ConjNames(po[k])}
+      EstablishedBefore(e, k) == \A cn \in ConjNames(e) : \E m \in 1..(k - 1) : probs[m].fwd = probs[k].fwd /\ probs[m].conj = cn
+      AxWhy(k, nm) ==
+        IF entry(nm) = {} THEN ""
+        ELSE LET e == po[CHOOSE x \in entry(nm) : TRUE] IN
+             IF ~AppliesTo(e, probs[k].fwd) THEN probs[k].name \o " uses " \o nm \o " of the other direction as an axiom"
+             ELSE IF e.role = "definition" THEN ""
+             ELSE IF nm # e.name THEN probs[k].name \o " uses the proof obligation " \o nm \o " itself as an axiom"
+             ELSE IF ~EstablishedBefore(e, k) THEN probs[k].name \o " uses lemma " \o nm \o " as an axiom before all problems establishing it were emitted"
+             ELSE ""
+      CjWhy(k) == IF entry(probs[k].conj) = {} THEN ""
+                  ELSE LET e == po[CHOOSE x \in entry(probs[k].conj) : TRUE] IN
+                       IF e.role = "definition" THEN probs[k].name \o " has a definition as conjecture"
+                       ELSE IF ~AppliesTo(e, probs[k].fwd) THEN probs[k].name \o " proves a lemma of the other direction" ELSE ""
+      Missing(fwd) == {cn \in UNION {ConjNames(po[k]) : k \in {x \in DOMAIN po : po[x].role \in {"lemma", "inductive-lemma"} /\ AppliesTo(po[x], fwd)}} :
+                         ~\E m \in DOMAIN probs : probs[m].fwd = fwd /\ probs[m].conj = cn}
+      dirs == {probs[m].fwd : m \in DOMAIN probs}
+  IN First(FlattenSeq([k \in DOMAIN probs |-> <<CjWhy(k)>> \o [a \in DOMAIN probs[k].axioms |-> AxWhy(k, probs[k].axioms[a])]])
+           \o [x \in 1..2 |-> LET fwd == (x = 1) IN IF fwd \in dirs /\ Missing(fwd) # {} THEN "no problem establishes " \o (CHOOSE c \in Missing(fwd) : TRUE) ELSE ""])
+
+\* reference base case and inductive step of an accepted inductive lemma, as ground trees (semantics, not syntax: the induction
+\* variable is ASSIGNED, so no substitution is involved on this side)
+RefInduction(f) ==
+  LET sh == IndShape(f)
+      F == sh.body.r
+      nkey == <<sh.body.l.t.v, "i">>
+      n == sh.body.l.g[1].t.n
+      others == SetToSeq(sh.vars \ {nkey})
+      base == FoldSet(LAMBDA e, acc : IF acc.k = "F" THEN FF ELSE PAnd(acc, Ground(F, (nkey :> CInt(n)) @@ e)), TT, Envs(others))
+      step == FoldSet(LAMBDA e, acc : IF acc.k = "F" THEN FF
+                                      ELSE PAnd(acc, PImp(PAnd(Lit3(Rel3("ge", e[nkey], CInt(n))), Ground(F, e)),
+                                                          Ground(F, (nkey :> AddI(e[nkey], CInt(1))) @@ e))),
+                      TT, Envs(SetToSeq(sh.vars)))
+  IN [base |-> base, step |-> step]
+
+EvalOutline(r) ==
+  LET pub == PredsOf(r.inputs) \cup PredsOf(r.outputs)
+      clash == (PredsOf(r.lpreds) \ pub) \cap (PredsOf(r.rpreds) \ pub)
+      \* the predicates of the task: inputs, those of the left side, those of the right side after the documented renaming
+      taken0 == PredsOf(r.inputs) \cup PredsOf(r.lpreds) \cup {IF q \in clash THEN <<q[1] \o "_p", q[2]>> ELSE q : q \in PredsOf(r.rpreds)}
+      why == OutlineWhy(r.po, taken0)
+      PerFamily(i) ==
+        LET fm == r.families[i]
+            refused == "error" \in DOMAIN fm
+        IN IF why # "" /\ ~refused THEN <<Out(r, "C13.outline_accepted_iff_wellformed", BadT([note |-> "outline accepted although " \o why]), "")>>
+           ELSE IF why = "" /\ refused THEN <<Out(r, "C13.outline_accepted_iff_wellformed", BadT([note |-> "outline refused although every entry is acceptable", error |-> fm.error]), "")>>
+           ELSE IF refused THEN <<Out(r, "C13.outline_accepted_iff_wellformed", [OkT EXCEPT !.t = 0, !.f = 1], why)>>
+           ELSE LET sw == SequencingWhy(r.po, r.obs[i])
+                    inds == {k \in DOMAIN r.po : r.po[k].role = "inductive-lemma"}
+                    IndOuts(k) ==
+                      LET e == r.po[k]
+                          ref == RefInduction(e.f)
+                          found(nm) == {x \in DOMAIN r.induction[i] : r.induction[i][x].name = nm}
+                          gb == found(e.name \o "base_case")
+                          gs == found(e.name \o "inductive_step")
+                      IN IF gb = {} \/ gs = {} THEN <<>>
+                         ELSE <<Out(r, "C13.base_case_is_F_at_n", CLEquiv(Ground(r.induction[i][CHOOSE x \in gb : TRUE].f, EmptyEnv), ref.base, <<>>), e.name),
+                                Out(r, "C13.inductive_step_is_F_N_implies_F_N_plus_1", CLEquiv(Ground(r.induction[i][CHOOSE x \in gs : TRUE].f, EmptyEnv), ref.step, <<>>), e.name)>>
+                IN <<Out(r, "C13.outline_accepted_iff_wellformed", OkT, ""),
+                     Out(r, "C13.lemmas_are_axioms_only_after_they_are_established", IF sw = "" THEN OkT ELSE BadT([note |-> sw]), ToString(fm.flags))>>
+                   \o FlattenSeq([k \in 1..Len(r.po) |-> IF k \in inds THEN IndOuts(k) ELSE <<>>])
+  IN FlattenSeq([i \in DOMAIN r.families |-> PerFamily(i)])
+
 EvalRecord(r) ==
   CASE r.kind = "rule" -> EvalRule(r)
+    [] r.kind = "external" /\ Prop = "C13" -> EvalOutline(r)
     [] r.kind = "fixloop" -> EvalFixLoop(r)
     [] r.kind = "roundtrip" -> EvalRoundtrip(r)
     [] r.kind = "tptp" -> EvalTptp(r)
